@@ -54,6 +54,83 @@ theorem run_translate (G : Sym3) (frac : ℚ) (mr : Int) (t : V3) (sites : List 
     Pipeline.run G frac mr (translateSites t sites) (xs.map (· + t)) = Pipeline.run G frac mr sites xs := by
   simp only [Pipeline.run, statesOf_translate]
 
+/-! ### whole-cell shifts of the atom (wrapped or unwrapped input) -/
+
+/-- no component of `x − s` sits exactly half a cell away (NoTie) for any listed site -/
+def NoTieTo (sites : List (V3 × ℚ)) (x : V3) : Prop :=
+  ∀ p ∈ sites, ∀ k : ℤ, (x - p.1).x ≠ k + 1/2 ∧ (x - p.1).y ≠ k + 1/2 ∧ (x - p.1).z ≠ k + 1/2
+
+theorem within_shift_atom (G : Sym3) (r : ℚ) (s x : V3) (n1 n2 n3 : ℤ)
+    (hn : ∀ k : ℤ, (x - s).x ≠ k + 1/2 ∧ (x - s).y ≠ k + 1/2 ∧ (x - s).z ≠ k + 1/2) :
+    within G r s (shiftBy x n1 n2 n3) = within G r s x := by
+  unfold within pbcDistSq minImageSq
+  have h : shiftBy x n1 n2 n3 - s = shiftBy (x - s) n1 n2 n3 := by
+    simp only [C07.v3_sub_def, shiftBy, V3.mk.injEq]
+    refine ⟨?_, ?_, ?_⟩ <;> ring
+  rw [h, minImageSqCert_shift G (x - s) n1 n2 n3 hn]
+
+theorem assignFrom_shift_atom (G : Sym3) (frac : ℚ) (x : V3) (n1 n2 n3 : ℤ) :
+    ∀ (sites : List (V3 × ℚ)) (k : Nat), NoTieTo sites x →
+      assignFrom G frac k sites (shiftBy x n1 n2 n3) = assignFrom G frac k sites x := by
+  intro sites
+  induction sites with
+  | nil => intro k _; rfl
+  | cons p rest ih =>
+    intro k hn
+    obtain ⟨s, r⟩ := p
+    have h1 := within_shift_atom G (r * frac) s x n1 n2 n3 (hn (s, r) (by simp))
+    simp only [assignFrom, h1]
+    rw [ih (k + 1) (fun q hq => hn q (by simp [hq]))]
+
+/-- **C07 / C01 (whole-cell shifts, end to end)**: shifting every position of the atom by its own whole lattice vector — feeding
+wrapped or unwrapped coordinates — leaves states, inner states, events and jumps unchanged (away from exact half-cell ties). -/
+theorem run_shift_atoms (G : Sym3) (frac : ℚ) (mr : Int) (sites : List (V3 × ℚ)) (xs : List V3) (ns : List (ℤ × ℤ × ℤ))
+    (hlen : ns.length = xs.length) (hn : ∀ x ∈ xs, NoTieTo sites x) :
+    Pipeline.run G frac mr sites (List.zipWith (fun x n => shiftBy x n.1 n.2.1 n.2.2) xs ns) = Pipeline.run G frac mr sites xs := by
+  have hs : ∀ f : ℚ, statesOf G f sites (List.zipWith (fun x n => shiftBy x n.1 n.2.1 n.2.2) xs ns) = statesOf G f sites xs := by
+    intro f
+    unfold statesOf
+    induction xs generalizing ns with
+    | nil => simp
+    | cons x xs ih =>
+      cases ns with
+      | nil => simp at hlen
+      | cons n ns =>
+        simp only [List.zipWith_cons_cons, List.map_cons]
+        rw [ih ns (by simpa using hlen) (fun y hy => hn y (by simp [hy]))]
+        congr 1
+        exact assignFrom_shift_atom G f x n.1 n.2.1 n.2.2 sites 0 (hn x (by simp))
+  simp only [Pipeline.run, hs]
+
+/-- non-vacuity of `NoTieTo`: a quarter of a cell from the site -/
+example : NoTieTo [((⟨0, 0, 0⟩ : V3), (1 : ℚ))] ⟨1/4, 0, 0⟩ := by
+  intro p hp k
+  simp only [List.mem_singleton] at hp
+  subst hp
+  simp only [C07.v3_sub_def]
+  refine ⟨?_, ?_, ?_⟩
+  · intro h
+    have h4 : (4 : ℚ) * k = -1 := by linarith
+    have : (4 * k : ℤ) = -1 := by exact_mod_cast h4
+    omega
+  · intro h
+    have h2 : (2 : ℚ) * k = -1 := by linarith
+    have : (2 * k : ℤ) = -1 := by exact_mod_cast h2
+    omega
+  · intro h
+    have h2 : (2 : ℚ) * k = -1 := by linarith
+    have : (2 * k : ℤ) = -1 := by exact_mod_cast h2
+    omega
+
+/-- every frame is assigned on its own: the history of a run that continues another is the concatenation of the two
+histories (what the long-run check of C02 relies on) -/
+theorem statesOf_append (G : Sym3) (frac : ℚ) (sites : List (V3 × ℚ)) (xs ys : List V3) :
+    statesOf G frac sites (xs ++ ys) = statesOf G frac sites xs ++ statesOf G frac sites ys := by
+  simp [statesOf]
+
+theorem statesOf_length (G : Sym3) (frac : ℚ) (sites : List (V3 × ℚ)) (xs : List V3) :
+    (statesOf G frac sites xs).length = xs.length := by simp [statesOf]
+
 /-! ### renaming of site indices through events and jumps -/
 
 theorem eventsSpec_relabel (f : Int → Int) (hf : Function.Injective f) :
